@@ -221,12 +221,20 @@ pub struct Chain {
     pub first: (Lit, USpell),
     pub rest: Vec<(bool, Lit, USpell)>,
     pub plain_last: Option<Lit>,
+    /// plain numbers between the quantities: (insert before rest[i], minus, literal) — with them the grouping of a
+    /// mixed `+`/`-` chain becomes visible, because a plain number adopts the unit of what it is combined with
+    pub plain_mid: Vec<(usize, bool, Lit)>,
 }
 
 pub fn chain_expr(c: &Chain) -> Expr {
     let mut terms: Vec<(bool, Expr)> = c.plain.iter().map(|l| (false, Expr::Num(l.clone()))).collect();
     terms.push((false, Expr::Qty(c.first.0.clone(), c.first.1.clone())));
-    for (minus, l, u) in &c.rest {
+    for (i, (minus, l, u)) in c.rest.iter().enumerate() {
+        for (at, m, pl) in &c.plain_mid {
+            if *at == i {
+                terms.push((*m, Expr::Num(pl.clone())));
+            }
+        }
         terms.push((*minus, Expr::Qty(l.clone(), u.clone())));
     }
     if let Some(l) = &c.plain_last {
@@ -241,8 +249,8 @@ pub fn chain_expr(c: &Chain) -> Expr {
 }
 
 pub fn chain() -> impl Strategy<Value = Chain> {
-    (prop::collection::vec(lit(), 0..=2), lit(), free_spelling(2, 2), prop::collection::vec((any::<bool>(), lit(), raw_spell(2, 2)), 1..=3), prop::option::weighted(0.2, (0usize..8, prop_oneof![Just(1i32), Just(-1)])), prop::option::weighted(0.2, lit()))
-        .prop_map(|(plain, x, u1, rest, perturb, plain_last)| {
+    (prop::collection::vec(lit(), 0..=2), lit(), free_spelling(2, 2), prop::collection::vec((any::<bool>(), lit(), raw_spell(2, 2)), 1..=3), prop::option::weighted(0.2, (0usize..8, prop_oneof![Just(1i32), Just(-1)])), prop::option::weighted(0.2, lit()), prop::collection::vec((0usize..3, any::<bool>(), lit()), 0..=2))
+        .prop_map(|(plain, x, u1, rest, perturb, plain_last, plain_mid)| {
             let n = rest.len();
             let rest: Vec<(bool, Lit, USpell)> = rest
                 .into_iter()
@@ -257,7 +265,8 @@ pub fn chain() -> impl Strategy<Value = Chain> {
                     (minus, l, build_spelling(&raw, &dim))
                 })
                 .collect();
-            Chain { plain, first: (x, u1), rest, plain_last }
+            let plain_mid: Vec<(usize, bool, Lit)> = plain_mid.into_iter().filter(|(at, _, _)| *at < rest.len()).collect();
+            Chain { plain, first: (x, u1), rest, plain_last, plain_mid }
         })
         .prop_filter("every spelling names a unit", |c| !c.first.1.factors.is_empty() && c.rest.iter().all(|(_, _, u)| !u.factors.is_empty()))
 }
@@ -269,6 +278,9 @@ pub fn chain_case(c: &Chain) -> Option<QCase> {
     let mut classes = vec!["sum-chain".to_string()];
     if !c.plain.is_empty() {
         classes.push("sum-chain-starting-with-plain-numbers".to_string());
+    }
+    if !c.plain_mid.is_empty() {
+        classes.push("sum-chain-with-plain-numbers-between-quantities".to_string());
     }
     Some(QCase { query: render_canonical(&e), expect, nontrivial: true, classes })
 }
